@@ -325,6 +325,31 @@ def r056(model, rep, ck):
            qualname='*', line=0)
 
 
+def r057(model, rep, ck):
+    rep.rule('R05.7', 'whenever the home tool pose is re-expressed for a new base, the backup used by restoreOriginalEE is re-derived from it '
+                      '(a restore after a move must not bring back a pose of the old base)')
+    res, _w = ck.exit_marks('orig')
+    n = 0
+    for fi, (bad, n_exits, own) in sorted(res.items(), key=lambda kv: kv[0].name):
+        reaches = fi.name in ('__init__', 'move') or bad
+        if not reaches:
+            continue
+        n += 1
+        if bad:
+            for text, (line, ex) in sorted(bad.items()):
+                rep.ob('R05.7', fi, text, False,
+                       'the home tool pose is rewritten for a new base (line %s) and %s is reached without refreshing '
+                       '_original_end_effector_home: restoreOriginalEE() afterwards installs a tool pose expressed in the old base while the '
+                       'screws belong to the new one' % (line, ex), line=line)
+        else:
+            rep.ob('R05.7', fi, 'restore backup follows the base in ' + fi.name, True, '%d exits' % n_exits)
+    rep.floor('R05.7', 'methods that re-express the home pose for a base', n, 2)
+    ro = ck.arm.methods.get('restoreOriginalEE')
+    st = [x for x in walk_own(ro.node) if isinstance(x, ast.Assign) and self_field(x.targets[0]) == '_end_effector_home']
+    ok = len(st) == 1 and src(st[0].value) in ('self._original_end_effector_home', 'self._original_end_effector_home.copy()')
+    rep.ob('R05.7', ro, 'restoreOriginalEE installs the backup', ok, 'restore assigns %s' % (src(st[0].value) if st else '?'))
+
+
 def check(model, rep):
     rep.extra['explanation'] = (
         'Typestate over all paths of every public Arm method (self-calls analysed inline): writes of the joint vector, home '
@@ -340,3 +365,8 @@ def check(model, rep):
     r054(model, rep, ck)
     r055(model, rep, ck)
     r056(model, rep, ck)
+    r057(model, rep, ck)
+    from .c02 import closure_obligations
+    n = closure_obligations(model, rep, 'R05.8', [ck.arm.methods[m] for m in ('FK', 'FKJoint', 'FKLink', 'initialize', 'move') if m in ck.arm.methods],
+                            'Arm forward kinematics (FKinSpace and the adjoint used on base changes)')
+    rep.floor('R05.8', 'shared primitives under arm FK', len(n), 6)
